@@ -253,7 +253,7 @@ def gen_sets(rng, tier):
             if rng.chance(1, 2):
                 sets.append(([o, base, o, base, base], "pair-dup"))
     # clusters: a few groups sharing long prefixes
-    for _ in range(30 if quick else 600):
+    for _ in range(24 if quick else 600):
         leaves = []
         for _g in range(1 + rng.below(3)):
             base = rng.bytes(32)
@@ -372,8 +372,8 @@ def check_set_output(rep, line, items, leaves, out):
 def candidate_lines(rng, tier, set_cases, impl_out):
     """mutants of the honest proofs the implementation produced -> [(validate line, meta)]"""
     cands = []
-    budget = 1600 if tier == "quick" else 40000
-    hcost, hbudget = 0, (10000 if tier == "quick" else 600000)
+    budget = 1200 if tier == "quick" else 40000
+    hcost, hbudget = 0, (7000 if tier == "quick" else 600000)
     order = list(range(len(set_cases)))
     rng.shuffle(order)
     for ci in order:
@@ -462,7 +462,7 @@ def nesting_cases(rng):
 
 def malformed_cases(rng, tier):
     out = []
-    for _ in range(150 if tier == "quick" else 5000):
+    for _ in range(100 if tier == "quick" else 5000):
         n = rng.choice([0, 1, 2, 3, 33, 34, 35, 66, 67, 68, 100])
         b = bytearray(rng.bytes(n))
         # bias the tag positions towards valid tags so that parsing gets somewhere
@@ -623,7 +623,7 @@ def run(ctx):
         olines.append(("mset.o_root %d %s" % (sd, ls)).rstrip())
         if len(leaves) <= 64 or tier != "quick":
             olines.append(("mset.o_proofs %d %s" % (sd, ls)).rstrip())
-        if (tier != "quick" or orng.chance(1, 3) or len(leaves) <= 2) and len(leaves) <= 128:
+        if (tier != "quick" or orng.chance(1, 4) or len(leaves) <= 1) and len(leaves) <= 128:
             olines.append(("mset.o_mut %d %s" % (sd, ls)).rstrip())
     z = lambda first: bytes([first]) + b"\x00" * 31
     pools = [(2, [z(0x00), z(0x40), z(0x80), z(0xc0)]), (2, [z(0x00), z(0x20), z(0x80), z(0xa0)]),
